@@ -81,6 +81,7 @@ type Config struct {
 	ClockTick  int64 // ns added per time.Now() reading
 	ClockGran  int64 // readings truncated to a multiple of this (coarse clock); 0/1: exact
 	Epoch      int64 // unix ns of simulated time zero
+	TZOffset   int   // seconds east of UTC of the simulated local time zone
 	TraceOn    bool
 	Race       bool
 	PipeCap    int
